@@ -100,6 +100,5 @@ Definition segs_text (l : list seg) : string := String.concat "" (map seg_text l
 Definition segs_fields (l : list seg) : list (string * pv) := fold_left (fun acc s => seg_fields s acc) l [].
 
 Definition top_head (id : string) (nm : option string) (ty : string) : list (string * pv) :=
-  let parts := (split_on ":" (name_text nm) ++ [(ty ++ " '")%string])%list in
-  [("id", PStr (String "b" (String SQ id))); ("name", PStr (py_strip (nth 0 parts ""))); ("type", PStr (py_strip (nth 1 parts "")))].
+  [("id", PStr (String "b" (String SQ id))); ("name", PStr (name_text nm)); ("type", PStr (ty ++ " '"))].
 
